@@ -11,7 +11,10 @@ NUMS = ["(i 0)", "(i 1)", "(i -1)", "(i 2)", "(i -3)", "(i 7)", "(q 1 2)", "(q -
         "(d 7ff0000000000000)", "(d fff0000000000000)", "(d 3fb999999999999a)",
         "(cd 3ff0000000000000 4000000000000000)", "(cd 0000000000000000 8000000000000000)",
         "oo", "-oo", "zoo", "nan", "pi", "E", "I", "EulerGamma"]
-NAN_DOUBLES = ["(d 7ff8000000000000)", "(cd 7ff8000000000000 3ff0000000000000)"]
+# NaN doubles with different sign / payload bits, also produced by arithmetic (inf + -inf)
+NAN_DOUBLES = ["(d 7ff8000000000000)", "(d fff8000000000000)", "(d 7ff0000000000001)",
+               "(add (d 7ff0000000000000) (d fff0000000000000))",
+               "(cd 7ff8000000000000 3ff0000000000000)", "(cd 3ff0000000000000 fff8000000000000)"]
 F1 = ["sin", "cos", "tan", "log", "exp", "abs", "gamma", "asin", "sinh", "erf", "floor", "sign", "conjugate", "atan"]
 F2 = ["atan2", "beta", "polygamma", "kronecker_delta"]
 
